@@ -165,7 +165,13 @@ pub fn gen_history(rng: &mut Rng, h: u64, len: usize) -> ((i64, i64), Vec<SOp>) 
     }
     let span = hi - lo;
     let mut ops = Vec::with_capacity(len);
-    let mut t: i32 = rng.range(-2, 3) as i32;
+    // extreme clocks in two of seven histories
+    let t_base: i32 = match h % 7 {
+        5 => i32::MAX - 4000,
+        6 => i32::MIN + 3,
+        _ => 0,
+    };
+    let mut t: i32 = t_base + rng.range(-2, 3) as i32;
     let short_lived = h % 3 == 0;
     // bucket edges of the expected layout make good coordinates
     let shift = expected_shift((span as u128) + 1);
@@ -220,7 +226,7 @@ pub fn gen_history(rng: &mut Rng, h: u64, len: usize) -> ((i64, i64), Vec<SOp>) 
             _ => {
                 ops.push(SOp::Clear);
                 if rng.chance(1, 2) {
-                    t = rng.range(-2, t as i64) as i32;
+                    t = rng.range(t_base as i64 - 2, t as i64) as i32;
                 }
             }
         }
